@@ -59,6 +59,22 @@ def xmlDocCmd (args : List String) : String :=
       (if wf t then "1 " else "0 ") ++ strTok ser ++ " " ++
         (match parseDoc ser with | some t' => String.intercalate " " (xdToks t') | none => "none")
     | _ => "bad-args"
+  | ["hello", pfx, caps] =>
+    match tokStr pfx, tokStrList caps with
+    | some pfx, some caps =>
+      let ser := serialize (helloTree pfx caps)
+      strTok ser ++ " " ++ (match parseDoc ser with
+        | some t => listTok ((capsOf pfx t).map fun o => match o with | some c => strTok c | none => "-")
+        | none => "none")
+    | _, _ => "bad-args"
+  | "rpc" :: pfx :: mid :: toks =>
+    match tokStr pfx, tokStr mid, xdNode 100000 toks with
+    | some pfx, some mid, some (op, []) =>
+      let ser := serialize (rpcTree pfx mid op)
+      strTok ser ++ " " ++ (match parseDoc ser with
+        | some t => (match attrOf "message-id".toList t with | some m => strTok m | none => "-")
+        | none => "none")
+    | _, _, _ => "bad-args"
   | ["parse", s] =>
     match tokStr s with
     | some s => match parseDoc s with | some t => String.intercalate " " (xdToks t) | none => "none"
